@@ -23,10 +23,13 @@ def toInt16 (n : Nat) : Int := if n < 32768 then (n : Int) else (n : Int) - 6553
 contour, in increasing numeric order." -/
 def readEndPts (b : Bytes) : Nat → Nat → Option (List Nat)
   | 0, _ => some []
-  | n+1, k => do
-    let e ← u16At b k
-    let es ← readEndPts b n (k + 2)
-    pure (e :: es)
+  | n+1, k =>
+    match u16At b k with
+    | none => none
+    | some e =>
+      match readEndPts b n (k + 2) with
+      | none => none
+      | some es => some (e :: es)
 
 /-- "in increasing numeric order": the decoder accepts equal consecutive entries as an empty
 contour and refuses a decrease (a decreasing entry describes no set of points). -/
@@ -44,9 +47,10 @@ their flag is not used.  Returns the logical flags and the offset after the last
 def logicalFlags (b : Bytes) : Nat → Nat → Nat → UInt8 → Option (List UInt8 × Nat)
   | 0, k, _, _ => some ([], k)
   | n+1, k, pending, cur =>
-    if pending > 0 then do
-      let (fs, k') ← logicalFlags b n k (pending - 1) cur
-      pure (cur :: fs, k')
+    if pending > 0 then
+      match logicalFlags b n k (pending - 1) cur with
+      | none => none
+      | some (fs, k') => some (cur :: fs, k')
     else
       match b[k]? with
       | none => none
@@ -54,12 +58,14 @@ def logicalFlags (b : Bytes) : Nat → Nat → Nat → UInt8 → Option (List UI
         if testBit f 3 then
           match b[k+1]? with
           | none => none
-          | some c => do
-            let (fs, k') ← logicalFlags b n (k + 2) c.toNat f
-            pure (f :: fs, k')
-        else do
-          let (fs, k') ← logicalFlags b n (k + 1) 0 f
-          pure (f :: fs, k')
+          | some c =>
+            match logicalFlags b n (k + 2) c.toNat f with
+            | none => none
+            | some (fs, k') => some (f :: fs, k')
+        else
+          match logicalFlags b n (k + 1) 0 f with
+          | none => none
+          | some (fs, k') => some (f :: fs, k')
 
 /-- The coordinate deltas of one axis.  X_SHORT_VECTOR (bit 1; bit 2 for y): "If set, the
 corresponding x-coordinate is 1 byte long, and the sign is determined by the
@@ -75,18 +81,22 @@ def deltas (b : Bytes) (shortBit sameBit : Nat) : List UInt8 → Nat → Option 
     if testBit f shortBit then
       match b[k]? with
       | none => none
-      | some v => do
-        let (ds, k') ← deltas b shortBit sameBit fs (k + 1)
-        pure ((if testBit f sameBit then (v.toNat : Int) else -(v.toNat : Int)) :: ds, k')
-    else if testBit f sameBit then do
-      let (ds, k') ← deltas b shortBit sameBit fs k
-      pure (0 :: ds, k')
+      | some v =>
+        match deltas b shortBit sameBit fs (k + 1) with
+        | none => none
+        | some (ds, k') =>
+          some ((if testBit f sameBit then (v.toNat : Int) else -(v.toNat : Int)) :: ds, k')
+    else if testBit f sameBit then
+      match deltas b shortBit sameBit fs k with
+      | none => none
+      | some (ds, k') => some (0 :: ds, k')
     else
       match u16At b k with
       | none => none
-      | some w => do
-        let (ds, k') ← deltas b shortBit sameBit fs (k + 2)
-        pure (toInt16 w :: ds, k')
+      | some w =>
+        match deltas b shortBit sameBit fs (k + 2) with
+        | none => none
+        | some (ds, k') => some (toInt16 w :: ds, k')
 
 /-- "Coordinate for the first point is relative to (0,0); others are relative to previous
 point": absolute coordinates are the running sums of the deltas. -/
@@ -118,44 +128,62 @@ def zip3 : List Int → List Int → List UInt8 → List Pt
   | x :: xs, y :: ys, f :: fs => ⟨x, y, testBit f 0⟩ :: zip3 xs ys fs
   | _, _, _ => []
 
+/-- "The number of points is determined by the last entry in the endPtsOfContours array": that
+entry plus one; no contours, no points. -/
+def pointCount (endPts : List Nat) : Nat :=
+  match endPts.getLast? with
+  | none => 0
+  | some e => e + 1
+
 /-- Simple glyph description (the bytes after the 10-byte glyph header), for
 `numberOfContours ≥ 0`: endPtsOfContours, instructionLength, instructions, flags, xCoordinates,
 yCoordinates.  ON_CURVE_POINT is bit 0.  Bytes after the y-coordinates are padding.  A glyph
 with zero contours has no points.  Coordinates are exact integers (no 16-bit wrap). -/
 def decodeSimple (numberOfContours : Int) (b : Bytes) : Option Outline :=
-  if numberOfContours < 0 then none else do
+  if numberOfContours < 0 then none else
   let nc := numberOfContours.toNat
-  let endPts ← readEndPts b nc 0
-  if !nonDecreasing endPts then none else
-  let numPoints := match endPts.getLast? with | none => 0 | some e => e + 1
-  let il ← u16At b (2 * nc)
-  let k0 := 2 * nc + 2
-  if b.length < k0 + il then none else
-  let instr := (b.drop k0).take il
-  let (flags, k1) ← logicalFlags b numPoints (k0 + il) 0 0
-  let (dx, k2) ← deltas b 1 4 flags k1
-  let (dy, _) ← deltas b 2 5 flags k2
-  let pts := zip3 (runningSums 0 dx) (runningSums 0 dy) flags
-  pure ⟨splitContours pts 0 endPts, instr⟩
+  match readEndPts b nc 0 with
+  | none => none
+  | some endPts =>
+    if !nonDecreasing endPts then none else
+    let numPoints := pointCount endPts
+    match u16At b (2 * nc) with
+    | none => none
+    | some il =>
+      if b.length < 2 * nc + 2 + il then none else
+      match logicalFlags b numPoints (2 * nc + 2 + il) 0 0 with
+      | none => none
+      | some (flags, k1) =>
+        match deltas b 1 4 flags k1 with
+        | none => none
+        | some (dx, k2) =>
+          match deltas b 2 5 flags k2 with
+          | none => none
+          | some (dy, _) =>
+            some ⟨splitContours (zip3 (runningSums 0 dx) (runningSums 0 dy) flags) 0 endPts,
+              (b.drop (2 * nc + 2)).take il⟩
 
 /-! ## loca -/
 
-/-- `loca`: "The offsets must be in ascending order" (non-decreasing: an empty glyph has equal
+/-! `loca`: "The offsets must be in ascending order" (non-decreasing: an empty glyph has equal
 consecutive offsets); every offset lies inside the glyf table; glyph data is 2-byte aligned (short
 format stores offset/2, so offsets must be even); there are numGlyphs+1 entries, the first is 0 for
 a table written from scratch and the last is the length of the glyf data.  `indexToLocFormat` 0:
 "Offset16 … the actual local offset divided by 2 is stored", 1: "Offset32 … the actual local
 offset is stored". -/
+
+def offsets16 : Bytes → List Nat
+  | hi :: lo :: rest => 2 * (hi.toNat * 256 + lo.toNat) :: offsets16 rest
+  | _ => []
+
+def offsets32 : Bytes → List Nat
+  | a :: b :: c :: d :: rest =>
+    (a.toNat * 16777216 + b.toNat * 65536 + c.toNat * 256 + d.toNat) :: offsets32 rest
+  | _ => []
+
 def readLoca (fmt : Nat) (loca : Bytes) : Option (List Nat) :=
-  if fmt = 0 then
-    if loca.length % 2 ≠ 0 then none
-    else some ((List.range (loca.length / 2)).filterMap fun i => (u16At loca (2 * i)).map (2 * ·))
-  else if fmt = 1 then
-    if loca.length % 4 ≠ 0 then none
-    else some ((List.range (loca.length / 4)).filterMap fun i =>
-      match u16At loca (4 * i), u16At loca (4 * i + 2) with
-      | some hi, some lo => some (hi * 65536 + lo)
-      | _, _ => none)
+  if fmt = 0 then (if loca.length % 2 ≠ 0 then none else some (offsets16 loca))
+  else if fmt = 1 then (if loca.length % 4 ≠ 0 then none else some (offsets32 loca))
   else none
 
 def sortedLe : List Nat → Bool
